@@ -27,7 +27,7 @@ for mid in ids:
             pr = subprocess.run(["./check", p, "--tier", "quick"], stdout=subprocess.PIPE, stderr=subprocess.STDOUT, env=env)
             txt = pr.stdout.decode("utf-8", "replace")
             keys = re.findall(r"^  key=(\S+)", txt, re.M)
-            row[p] = {"exit": pr.returncode, "violations": txt.count("\nVIOLATION ") + txt.startswith("VIOLATION "), "first_keys": keys[:3],
+            row[p] = {"exit": pr.returncode, "violations": txt.count("\nVIOLATION ") + txt.startswith("VIOLATION "), "first_keys": keys[:3], "tail": txt[-400:] if pr.returncode == 2 else "",
                       "wall_s": round(time.time() - t0, 1)}
         matrix[mid] = row
         json.dump(matrix, open(out_path, "w"), indent=1, sort_keys=True)
